@@ -99,6 +99,50 @@ Theorem C15_accepted_refresh_only_removes : forall (st : state) (snaps : list N)
 Proof. exact accepted_refresh_only_removes. Qed.
 Print Assumptions C15_accepted_refresh_only_removes.
 
+(* what holds are for: a refresh of ALL snaps (auto-refresh: level HoldAutoRefresh = 0; `snap refresh` without names:
+   level HoldGeneral = 1; updatePlan.filterHeldSnaps and snapsToRefresh) goes on exactly with the candidates that
+   HeldSnaps does not report at that level. A refresh that names its snaps does not consult the holds (its operation
+   RefreshAccepted only drops hold records). *)
+Theorem C15_refresh_targets : forall (st : state) (level : N) (holders cands : list N) (s : N),
+  In s (refresh_targets st level holders cands) <->
+  In s cands /\ forall g, In g holders -> effective st level s g = false.
+Proof. exact refresh_targets_spec. Qed.
+Print Assumptions C15_refresh_targets.
+
+(* a held snap is never refreshed by a refresh of all snaps before the hold ends (for gating snaps: and within
+   maxPostponement of the last refresh), at every level the hold covers *)
+Theorem C15_held_not_refreshed : forall (st : state) (level : N) (holders cands : list N) (s g : N) (h : hold),
+  st_gating st s g = Some h -> In g holders -> (level <= h_level h)%N -> st_now st <= h_until h ->
+  (g = system \/ st_now st <= st_lastref st s + max_postponement) ->
+  ~ In s (refresh_targets st level holders cands).
+Proof. exact held_not_refreshed. Qed.
+Print Assumptions C15_held_not_refreshed.
+
+(* gating snaps hold for auto-refreshes only (level 0, C15_constants): such a hold never keeps a snap out of a general refresh *)
+Theorem C15_auto_level_hold_ignored_by_general_refresh : forall (st : state) (s g : N) (h : hold),
+  st_gating st s g = Some h -> h_level h = 0%N -> effective st 1 s g = false.
+Proof. exact auto_level_hold_ignored_by_general_refresh. Qed.
+Print Assumptions C15_auto_level_hold_ignored_by_general_refresh.
+
+(* over every history: a candidate that an auto-refresh leaves out is held by the administrator or is within 90 days of
+   its last refresh *)
+Theorem C15_auto_refresh_excluded_bound : forall (lr0 : N -> Z) (now0 : Z) (ops : list op) (holders cands : list N) (s : N),
+  (forall x, lr0 x <= now0) ->
+  let st := run (init_state lr0 now0) ops in
+  In s cands -> ~ In s (refresh_targets st 0 holders cands) ->
+  effective st 0 s system = true \/ st_now st <= st_lastref st s + ninety_days.
+Proof. exact auto_refresh_excluded_bound. Qed.
+Print Assumptions C15_auto_refresh_excluded_bound.
+
+(* non-vacuity: snap 1 holds snap 2 for auto-refreshes; an auto-refresh of snaps 1, 2, 3 goes on with 1 and 3, a general
+   refresh with all three; 48 h + 1 ns later the auto-refresh takes snap 2 as well *)
+Example C15_refresh_targets_example :
+  let st := run (init_state (fun _ => - h_ns) 0) [Hold 0 1 0 [2%N]] in
+  refresh_targets st 0 [0; 1; 2; 3]%N [1; 2; 3]%N = [1; 3]%N /\
+  refresh_targets st 1 [0; 1; 2; 3]%N [1; 2; 3]%N = [1; 2; 3]%N /\
+  refresh_targets (step st (Tick (Z.to_N (48 * h_ns + 1)))) 0 [0; 1; 2; 3]%N [1; 2; 3]%N = [1; 2; 3]%N.
+Proof. vm_compute. repeat split; reflexivity. Qed.
+
 (* gate-auto-refresh hook runs (snapctl refresh --hold / --proceed, then the hook handler's Done / Error): `Hook g snaps
    script fails` is expanded by hook_ops into the HoldRefresh / ProceedWithRefresh calls the code makes; hstep / hrun run
    histories that contain hook runs. *)
